@@ -211,7 +211,13 @@ def run_entry_points(chk, gen):
     under the sanitizers with the C01 oracle on the outcome"""
     rows = gen["rows"]
     table, stale, err = coverage_table()
-    m = re.search(r"ENTRY POINTS WITHOUT A DISPOSITION[^\n]*", "\n".join(getattr(chk, "proof_problems", [])) + "\n" + (err or ""))
+    pat = r"ENTRY POINTS WITHOUT A DISPOSITION[^\n]*"
+    m = re.search(pat, "\n".join(getattr(chk, "proof_problems", [])) + "\n" + (err or ""))
+    if table is None and m is None:
+        # Coverage.lean did not build: elaborate its source (needs only the generated table) to have Lean name the rows
+        core.lake(["build", "TinsModel.Gen.EntryPoints"])
+        r = core.lake(["env", "lean", "TinsModel/Wire/Coverage.lean"])
+        m = re.search(pat, r.stdout + r.stderr)
     exe, herr = core.build_harness("c01_entry")
     if exe is None:
         chk.violation("entry-point harness does not build (a construct-from-buffer form declared in a header without a definition "
